@@ -514,3 +514,41 @@ impl Server {
         }
     }
 }
+
+/// Verification hook: snapshot of a [Server]'s stores (most recently used first) and token secrets.
+#[cfg(mainline_verif)]
+#[derive(Debug, Clone)]
+pub struct VerifServerDump {
+    /// peers per info hash
+    pub peers: Vec<(Id, Vec<(Id, SocketAddrV4)>)>,
+    /// signed peers per info hash
+    pub signed_peers: Vec<(Id, Vec<([u8; 32], SignedAnnounce)>)>,
+    /// immutable values
+    pub immutable: Vec<(Id, Box<[u8]>)>,
+    /// mutable items
+    pub mutable: Vec<(Id, MutableItem)>,
+    /// previous and current token secrets
+    pub secrets: ([u8; 20], [u8; 20]),
+}
+
+#[cfg(mainline_verif)]
+impl Server {
+    /// Verification hook: snapshot of the stores and token secrets.
+    pub fn verif_dump(&self) -> VerifServerDump {
+        VerifServerDump {
+            peers: self.peers.verif_dump(),
+            signed_peers: self.signed_peers.verif_dump(),
+            immutable: self
+                .immutable_values
+                .iter()
+                .map(|(k, v)| (*k, v.clone()))
+                .collect(),
+            mutable: self
+                .mutable_values
+                .iter()
+                .map(|(k, v)| (*k, v.clone()))
+                .collect(),
+            secrets: self.tokens.verif_secrets(),
+        }
+    }
+}
